@@ -1116,3 +1116,43 @@ class KnownCardsRule(Monitor):
                         f'{[repr(x) for x in s.hole_cards[i]]}: a known '
                         f'card left a live hand without a discard or muck')
                     return
+
+
+class BoardGrowthRule(Monitor):
+    """Trace rule on the boards: a card dealt onto a board stays on that
+    board, in place -- every board only ever grows at its end (until the
+    number of boards changes when run-outs are agreed).  Looked at after
+    every operation, so also while one run-out is on the table and the next
+    is not yet dealt."""
+
+    name = 'board-growth'
+
+    def on_begin(self, ctx):
+        self.boards = None
+
+    def _view(self, s):
+        return [tuple(map(repr, s.get_board_cards(b)))
+                for b in s.board_indices]
+
+    def on_created(self, ctx, s):
+        self.boards = self._view(s)
+
+    def on_op(self, ctx, s, operation):
+        try:
+            now = self._view(s)
+        except Exception as exc:    # noqa: BLE001
+            ctx.violate(f'op #{ctx.nevents}: get_board_cards raised '
+                        f'{type(exc).__name__}: {exc}')
+            return
+        prev, self.boards = self.boards, now
+        if prev is None or len(prev) != len(now):
+            return
+        ctx.counters['board_views_followed'] += 1
+        for b, (x, y) in enumerate(zip(prev, now)):
+            if y[:len(x)] != x:
+                ctx.violate(
+                    f'op #{ctx.nevents} {type(operation).__name__}: '
+                    f'get_board_cards({b}) was {x} and is now {y} '
+                    f'({s.board_count} boards, board_cards {s.board_cards}):'
+                    f' a card seen on a board left it or moved')
+                return
